@@ -12,10 +12,29 @@ pub struct ActorDef {
     pub name: String,
     pub is_co: bool,
     pub body: Body,
+    /// started by the code under test (e.g. a select coroutine), not by the driver
+    pub external: bool,
+    /// Some(name): this is the kernel side of the coroutine actor `name`
+    pub kernel_of: Option<String>,
 }
 
 pub fn actor(name: &str, is_co: bool, body: impl FnOnce() + Send + 'static) -> ActorDef {
-    ActorDef { name: name.to_string(), is_co, body: Box::new(body) }
+    ActorDef { name: name.to_string(), is_co, body: Box::new(body), external: false, kernel_of: None }
+}
+
+/// an actor slot for a coroutine that the code under test spawns itself; it calls
+/// `ctl.enroll_co(idx)` and holds a `fin_guard` while it runs
+pub fn external_actor(name: &str) -> ActorDef {
+    ActorDef { name: name.to_string(), is_co: true, body: Box::new(|| {}), external: true, kernel_of: None }
+}
+
+/// the kernel side (subscribe) of coroutine actor `of` as an actor of its own
+pub fn kernel_actor(name: &str, of: &str) -> ActorDef {
+    ActorDef { name: name.to_string(), is_co: false, body: Box::new(|| {}), external: true, kernel_of: Some(of.to_string()) }
+}
+
+pub fn fin_guard(ctl: &'static Ctrl, idx: usize) -> impl Drop {
+    FinGuard { ctl, idx }
 }
 
 /// one step of a schedule
@@ -78,6 +97,8 @@ pub enum End {
     Stuck(Vec<String>),
     /// step budget exhausted (livelock guard)
     Budget,
+    /// the scenario stopped the execution (continuing would touch freed memory)
+    Aborted,
     Tool(String),
 }
 
@@ -106,6 +127,8 @@ pub struct ExecOpts {
     pub timer_actor: Option<String>,
     /// extra scenario specific env actions, always enabled until used once
     pub custom_env: Vec<(String, String)>,
+    /// points of these categories are taken at once (nothing else is offered while one is pending)
+    pub urgent_cats: Vec<&'static str>,
 }
 
 impl Default for ExecOpts {
@@ -121,6 +144,7 @@ impl Default for ExecOpts {
             kernel_cats: vec![],
             timer_actor: None,
             custom_env: vec![],
+            urgent_cats: vec![],
         }
     }
 }
@@ -149,7 +173,7 @@ pub fn execute(
     custom: &mut dyn FnMut(&str, &str),
 ) -> (Outcome, Vec<Handle>) {
     let names: Vec<String> = defs.iter().map(|d| d.name.clone()).collect();
-    let spec: Vec<(&str, bool)> = defs.iter().map(|d| (d.name.as_str(), d.is_co)).collect();
+    let spec: Vec<(&str, bool, bool)> = defs.iter().map(|d| (d.name.as_str(), d.is_co, d.external)).collect();
     ctl.begin(&opts.cats, &spec, opts.vclock);
     {
         let mut g = ctl.lock();
@@ -157,9 +181,20 @@ pub fn execute(
         g.kernel_cats = opts.kernel_cats.clone();
         g.timer_actor = opts.timer_actor.as_ref().and_then(|n| names.iter().position(|x| x == n));
     }
+    for (k, d) in defs.iter().enumerate() {
+        if let Some(of) = &d.kernel_of {
+            if let Some(i) = names.iter().position(|n| n == of) {
+                ctl.set_kernel_of(k, i);
+            }
+        }
+    }
     let mut handles: Vec<Handle> = vec![];
     for (idx, d) in defs.into_iter().enumerate() {
         let body = d.body;
+        if d.external {
+            handles.push(Handle::Co(None));
+            continue;
+        }
         if d.is_co {
             let h = unsafe {
                 may::coroutine::Builder::new()
@@ -206,6 +241,10 @@ pub fn execute(
                 break;
             }
         };
+        if ctl.aborted() {
+            end = End::Aborted;
+            break;
+        }
         if st == Settled::AllFinished {
             end = End::Finished;
             break;
@@ -232,6 +271,11 @@ pub fn execute(
             }
             ready = ready_all.clone();
         }
+        let urgent: Vec<(usize, PointInfo)> = ready.iter().filter(|(_, p)| opts.urgent_cats.contains(&crate::ctrl::cat_of(p.site))).cloned().collect();
+        let has_urgent = !urgent.is_empty();
+        if has_urgent {
+            ready = urgent;
+        }
         // enabled env actions
         let mut env: Vec<(String, String)> = vec![];
         for v in &opts.victims {
@@ -250,7 +294,10 @@ pub fn execute(
                 env.push(e.clone());
             }
         }
-        let finished: Vec<bool> = (0..names.len()).map(|i| matches!(ctl.actor_state(i).0, ASt::Finished(_))).collect();
+        if has_urgent {
+            env.clear();
+        }
+        let finished: Vec<bool> = (0..names.len()).map(|i| matches!(ctl.actor_state(i).0, ASt::Finished(_)) || ctl.kernel_idle(i)).collect();
         let view = View { names: &names, ready: &ready, env: &env, nsteps, finished: &finished };
         let choice = chooser.choose(&view);
         match choice {
@@ -325,10 +372,16 @@ pub fn execute(
                 }
                 if st == Settled::Quiet && ctl.confirm_stuck(40) {
                     let g = ctl.lock();
+                    if std::env::var("MV_DEBUG").is_ok() {
+                        for a in g.actors.iter() {
+                            eprintln!("  STUCK {} st={:?} co={:?} at={:?} ext={} host={:?}", a.name, a.st, g.co.get(&a.vid), a.at, a.external, a.hosting);
+                        }
+                        eprintln!("  co map: {:?}", g.co);
+                    }
                     let who = g
                         .actors
                         .iter()
-                        .filter(|a| !matches!(a.st, ASt::Finished(_)))
+                        .filter(|a| !matches!(a.st, ASt::Finished(_)) && !(a.kernel_of.is_some() && a.kactive == 0))
                         .map(|a| a.name.clone())
                         .collect();
                     end = End::Stuck(who);
